@@ -18,7 +18,7 @@ import (
 func init() {
 	core.Register(&core.Prop{
 		ID: "C03",
-		Rule: "polygon phase: case = one valid lattice polygon (star-shaped or rectilinear integer shell, 0-4 lattice holes in disjoint cells strictly inside) or multi-polygon of 1-3 disjoint members, explored over its spelling orbit (every subset of rings reversed for <= 3 rings, sampled above; random rotation of each ring's start vertex; closed/unclosed spelling per ring) and a float image under a random similarity transform; Area/Centroid (geom and op) compared with exact rational shoelace measures (== on the integer grid, 1e-10 relative on floats); " +
+		Rule: "polygon phase (30% of the spellings are handed over with rings laid out as consecutive sub-slices of one backing array): case = one valid lattice polygon (star-shaped or rectilinear integer shell, 0-4 lattice holes in disjoint cells strictly inside) or multi-polygon of 1-3 disjoint members, explored over its spelling orbit (every subset of rings reversed for <= 3 rings, sampled above; random rotation of each ring's start vertex; closed/unclosed spelling per ring) and a float image under a random similarity transform; Area/Centroid (geom and op) compared with exact rational shoelace measures (== on the integer grid, 1e-10 relative on floats); " +
 			"line phase: random and integer line strings (repeated vertices included) with query points on the line, beyond its ends and at random: Length, Distance vs 200-bit references; Point.Buffer vs the regular n-gon; " +
 			"an evaluation is one measured call; non-trivial = shape with a hole or a reversed/rotated spelling whose measure was compared; distinct by spelling hash",
 		Assumptions: []string{"Polygon.Centroid / op.Centroid / op.Area are exercised only under their documented preconditions (closed rings, shell and holes oppositely oriented), as the property states", "float images keep |translation| <= 10 x size so that shoelace cancellation stays far below the 1e-10 tolerance"},
@@ -40,7 +40,7 @@ func init() {
 		Floors: func(t string) map[string]int64 {
 			return map[string]int64{"orbit.reversed_single_ring": 1000, "orbit.unclosed": 1000, "orbit.all_reversed": 500, "shape.with_holes": 500, "shape.multipolygon": 300,
 				"centroid.MultiPolygon": 1000, "centroid.Polygon": 500, "area.exact_equal": 5000, "area.float": 1000, "op.area": 500, "op.centroid": 500,
-				"distance.on_line": 500, "distance.beyond_end": 500, "distance.zero_length_segment": 200, "buffer": 500, "length": 1000, "line.long": 300}
+				"distance.on_line": 500, "distance.beyond_end": 500, "distance.zero_length_segment": 200, "buffer": 500, "length": 1000, "line.long": 300, "storage.rings_share_one_backing_array": 1000}
 		},
 	})
 }
@@ -319,6 +319,14 @@ func checkSpelling(c *core.Ctx, mp geom.MultiPolygon, sps []spelling, wantA, wan
 	detail := map[string]interface{}{"geometry": gen.Dump(mp), "want_area": wantA, "want_centroid": []float64{wantCx, wantCy}, "reversal_mask": mask}
 	if c.WantSample() && len(mp[0]) > 1 {
 		c.Sample(detail)
+	}
+	if c.R.Chance(0.3) {
+		// rings as consecutive sub-slices of one backing array (a flat coordinate buffer): a
+		// ring's spare capacity is the next ring's storage
+		mp = gen.InArena(mp).G.(geom.MultiPolygon)
+		detail["storage"] = "rings are consecutive sub-slices of one backing array (ring k = buf[off:off+n])"
+		c.Count("storage.rings_share_one_backing_array")
+		kind += ":shared-storage"
 	}
 	var pgl geom.Polygonal = mp
 	single := len(mp) == 1
